@@ -963,7 +963,7 @@ func FunctionMap() map[string]physical.FunctionDetails {
 				},
 				{
 					ArgumentTypes: []octosql.Type{octosql.String},
-					OutputType:    octosql.Int,
+					OutputType:    octosql.TypeSum(octosql.Int, octosql.Null), // NULL if the string can't be parsed
 					Strict:        true,
 					Function: func(values []octosql.Value) (octosql.Value, error) {
 						n, err := strconv.ParseInt(values[0].Str, 10, 64)
@@ -1007,7 +1007,7 @@ func FunctionMap() map[string]physical.FunctionDetails {
 				},
 				{
 					ArgumentTypes: []octosql.Type{octosql.String},
-					OutputType:    octosql.Float,
+					OutputType:    octosql.TypeSum(octosql.Float, octosql.Null), // NULL if the string can't be parsed
 					Strict:        true,
 					Function: func(values []octosql.Value) (octosql.Value, error) {
 						n, err := strconv.ParseFloat(values[0].Str, 64)
